@@ -3,7 +3,8 @@ usage: evalmutant.py <Cnn> <k> [extra check ids...]   -> prints a JSON summary""
 import json, os, subprocess, sys
 pid, k = sys.argv[1], sys.argv[2]
 extra = sys.argv[3:]
-wt = "/tmp/seed/%s" % pid
+BASE = os.environ.get("SEED_DIR", "/tmp/seed")
+wt = "%s/%s" % (BASE, pid)
 out = os.path.join(wt, "out")
 diff = os.path.join(out, "m%s.diff" % k)
 demo = os.path.join(out, "m%s_demo.py" % k)
